@@ -19,7 +19,7 @@ META = {
                 "stream model (SymStream)"],
     "explanation": "EncodedValue decoding proved for all payloads; nested arrays/annotations for small concrete element counts; "
                    "printing of initialisers bounded by sampling.",
-    "assumptions": ["floats/doubles, method types and method handles are not in the property statement: no clause",
+    "assumptions": ["floats and doubles (not named by the statement, but printed by the decompiler) are decoded as IEEE-754 bit patterns zero-extended to the right: unit float_values; method types and method handles are not in the statement: no clause; the spelling of inf/nan in printed initialisers is not pinned",
                     "arrays: element count is a concrete 0..3 in the proof units (the per-element argument does not depend on the count)"],
 }
 
